@@ -617,7 +617,11 @@ fn ngram_hashes(ops: &[Op], shape: u64, out: &mut std::collections::BTreeSet<u64
 }
 
 fn pick_shipped(rng: &mut Rng, tier: Tier) -> Option<(String, String, Sys)> {
-    let max_bytes = if tier == Tier::Thorough { 400_000 } else { 40_000 };
+    // 120 kB admits every shipped design except inputs/lakeroad/DSP48E2.btor (167 kB): patronus'
+    // interpreter evaluates each next-state expression as a tree, without sharing sub-results,
+    // and one step of that design does not finish within minutes (a performance matter outside
+    // C07; measured with `patsim shipped-sim-costs`, every other design steps in <= 1 ms)
+    let max_bytes = if tier == Tier::Thorough { 120_000 } else { 40_000 };
     // no division: patronus' evaluator documents it as unimplemented
     let v = shipped_corpus(max_bytes, 10, false);
     if v.is_empty() { None } else { Some(v[rng.usize_below(v.len())].clone()) }
@@ -630,7 +634,7 @@ impl Property for C07 {
     fn runs(&self, tier: Tier) -> usize {
         match tier {
             Tier::Quick => 40_000,
-            Tier::Thorough => 1_000_000,
+            Tier::Thorough => 8_000_000,
         }
     }
 
